@@ -19,7 +19,7 @@ RULE = ("case = solver configuration as in C01 (grammar, template constraint ove
         "non-trivial = at least two solve() calls were made and the constraint contains an SMT or predicate atom; "
         "distinct by case hash")
 ASSUMPTIONS = ["exceptions from the ISLaSolver constructor are recorded (class ctor_error) but not judged: the property speaks about solve()",
-               "RuntimeError('Could not create a tree with the start symbol ... of length ...') with optimized Z3 queries enabled is the documented refusal of that mode (its message tells the user to switch the mode off) and is recorded as class documented_refusal, not judged",
+               "RuntimeError('Could not create a tree with the start symbol ... of length ...') / ('Could not parse a numeric solution ...') with optimized Z3 queries enabled is the documented refusal of that mode (its message tells the user to switch the mode off) and is recorded as class documented_refusal, not judged",
                "'never raises' cannot be established by search: the claim is 'did not on the configurations generated'"]
 
 # operator coverage: (name, atom builder over a string variable v of a given type)
@@ -109,8 +109,11 @@ def judge(case):
     documented = False
     for e in ev:
         if e.startswith("raises:"):
-            if ("RuntimeError@safe_create_fixed_length_tree" in e and case["settings"].get("enable_optimized_z3_queries", True)
-                    and "Could not create a tree with the start symbol" in obs.get("error_detail", "")):
+            if (e.startswith("raises:RuntimeError@") and case["settings"].get("enable_optimized_z3_queries", True)
+                    and ("Could not create a tree with the start symbol" in obs.get("error_detail", "")
+                         or "Could not parse a numeric solution" in obs.get("error_detail", ""))):
+                # both messages end with "try running the solver without optimized Z3 queries or make sure that
+                # lengths/ranges are restricted to syntactically valid ones": the documented refusal of that mode
                 documented = True
                 continue
             viol.append({"sig": "solve:" + e.split(":")[0] + ":" + e.split(":", 1)[1], "constraint": obs["text"], "settings": case["settings"],
